@@ -16,11 +16,17 @@ COQ_DIRS = ["C03"]
 COQ_TARGETS = ["Base/Reorder.vo", "C03/Model.vo", "C03/Proofs.vo", "C03/Families.vo", "C03/Global.vo"]
 PROPERTIES_FILE = "Properties/C03.v"
 ALLOWED_AXIOMS = set()
-RULE = ("circuits of 0-12 commands on 1-3 modes mixing every single-mode family (D, X, Z, S, R, P, V, K, Fourier, loss, thermal loss, MSgate, "
-        "preparations), two-mode gates, measurements, gates with measured parameters, daggers; first parameters on a dyadic grid so that exact "
-        "cancellation (p0 == 0, T == 1) occurs; optimised grid compared wire by wire with the model (exact rationals); original vs optimised "
-        "executed on a backend; operation objects snapshotted before/after; non-trivial = at least one merge fired, or a mergeable pair separated "
-        "by a command on another wire")
+RULE = ("model stream: circuits of 0-12 commands (half of them after a correlated displaced prefix) on 1-4 modes mixing every single-mode family (D, X, Z, S, R, P, V, K, "
+        "Fourier, loss, thermal loss, MSgate, preparations), two-mode gates (BS, CX, CZ, S2, MZ, CK; repeated on the same / reversed modes), measurements, gates with measured "
+        "parameters, daggers, Del; first parameters on a dyadic grid with equal / opposite / opposite-up-to-1/256 repeats so that exact and near cancellation (p0 == 0, T == 1, "
+        "T == 0) occur; optimised grid compared wire by wire with the model (exact rationals); original vs optimised executed on a backend; objects snapshotted. "
+        "extended stream (property predicate only): deterministic sweeps family x parameter relation x dagger flags x context (plain, reversed modes, separated, blocked, "
+        "deleted later, on a New mode, mode 5 of 6) for every single- and two-mode gate family, channel pairs (T in {0, 1, near 1}, equal / different / nearly equal further "
+        "parameters), 1x1 / 2x2 matrix operations (inverse, minus inverse, near inverse), ordered cross-family pairs over every preparation / measurement / channel / gate, free "
+        "symbols and measured values as first and further parameters, random programs with New / Del on up to 7 modes, time-domain programs; routes: optimize, optimize twice, "
+        "optimize after a run, engine compile_options, compile().optimize(), compile(optimize=True) for gaussian / fock / bosonic / gaussian_unitary / gaussian_merge / passive / "
+        "gbs / Xunitary / Xcov; judged against a freshly built never-optimised program, by-value fingerprint of the original (every attribute of every operation, parameter-list "
+        "identities, register, program attributes) before / after optimisation and after running the copy; non-trivial = at least one merge fired")
 TRUSTED_BASE = [
     "Coq 8.16.1 kernel; vm_compute (model executed at Q)",
     "hand model coq/C03/Model.v of Operation.merge (Gate/Channel/Preparation/Fouriergate) and of optimize_circuit's per-wire loop, tied by exact correspondence",
@@ -30,6 +36,7 @@ TRUSTED_BASE = [
     "(distinct command objects, each on >= 1 wire, per-wire projections = the model's per-wire results) are what the correspondence checks on every case",
     "Section hypothesis of the whole-optimiser theorem: commands without a common wire (register modes + measured-parameter modes) commute",
 ]
+TRUSTED_BASE.append("extended stream: no model; the implementation's backends are the judge of 'same output state' (Gaussian: means + covariance at 1e-7; Fock: density matrix, tolerance scaled by the truncated trace)")
 ASSUMPTIONS = ["commands that share no wire of the grid commute (physics of disjoint subsystems + classical dependencies are wires); K/V one-parameter-group laws assumed"]
 MANIFEST_TEXT = ("Proved: the optimiser's per-wire merging loop terminates and preserves the composition for every command list, given merge soundness; merge soundness "
                  "derived from the one-parameter-group laws, which are proved for the Gaussian single-mode families as 2x2 identities; two Fourier gates are "
@@ -728,11 +735,14 @@ def x_check(spec):
     route = spec["route"]
     with warnings.catch_warnings():
         warnings.simplefilter("ignore")
-        fresh = x_build(spec)      # never optimised: the reference
-        prog = x_build(spec)
+        try:
+            fresh = x_build(spec)      # never optimised: the reference
+            prog = x_build(spec)
+            if route == "ran":
+                x_run(prog, spec, draw=spec.get("draw0", -0.7))
+        except Exception:
+            return None, "the unoptimised program cannot be built / run", False   # (a generator slip, e.g. a post-selected outcome of probability zero)
         tag = route.replace("compile:", "compile-optimize:")
-        if route == "ran":
-            x_run(prog, spec, draw=spec.get("draw0", -0.7))
         fp0 = x_fingerprint(prog)
         strip = route in ("compile:gbs", "compile:Xunitary", "compile:Xcov")
         ref_prog = fresh
@@ -884,6 +894,11 @@ def x_wrap(pair, two, ctxname, backend):
 CTXS = ["plain", "rev", "apart", "blocked", "del", "new", "high"]
 
 
+def pick_ctx(rng, backend):
+    # (three-mode mixed states are slow on the Fock backend: mostly the two-mode contexts there)
+    return rng.choice(CTXS) if backend != "fock" or rng.random() < 0.25 else rng.choice(["plain", "rev"])
+
+
 def x_pair_sweep(backend):
     """Same-family pairs: every family x relation between the first parameters x dagger flags (contexts are chosen by the caller)."""
     weak = backend == "fock"
@@ -960,28 +975,41 @@ def x_symbolic_sweep():
 
 
 def x_measured_sweep():
-    """Gates fed by the measured value of THEIR OWN mode (one wire only: the optimiser merges them) and of another mode (never merged)."""
+    """Operations fed by the measured value of THEIR OWN mode (one wire only: the optimiser merges them) and of another mode (never merged);
+    the measured value as first parameter and as a further parameter, gates and channels."""
     out = []
+    m = lambda k=0.5: {"meas": 1, "k": k}
     for sel in ({"select": 0.3}, {}):
-        for name, extra in (("Xgate", []), ("Zgate", []), ("Dgate", [0.4]), ("Sgate", [0.3]), ("Rgate", [])):
-            for k2, tag in ((1, "m,m"), (-1, "m,-m"), (0.5, "m,m/2")):
-                for src in ("own", "other"):
+        for src in ("own", "other"):
+            for name, extra in (("Xgate", []), ("Zgate", []), ("Dgate", [0.4]), ("Sgate", [0.3]), ("Rgate", [])):
+                for k2, tag in ((1, "m,m"), (-1, "m,-m"), (0.5, "m,m/2")):
                     for da, db in ((False, False), (False, True), (True, True)):
-                        out.append((name, extra, k2, src, da, db, sel, "%s:%s:%s" % (name, tag, src)))
+                        out.append((name, [m()] + extra, [m(0.5 * k2)] + extra, src, da, db, sel, "%s:%s:%s" % (name, tag, src)))
+            for name, a0, b0 in (("Dgate", 0.25, 0.125), ("Sgate", 0.25, -0.25), ("Sgate", 0.25, 0.125)):
+                for xa, xb, tag in ((m(), m(), "phi=m,m"), (m(), m(1), "phi=m,2m"), (m(), 0.15, "phi=m,num")):
+                    out.append((name, [a0, xa], [b0, xb], src, False, src == "other", sel, "%s:%s:%s" % (name, tag, src)))
+            if sel:
+                # transmissivities / thermal occupations must stay in range: post-selected value only
+                for ka, kb, tag in ((1, 1, "T=m,m"), (1, 2, "T=m,2m")):
+                    out.append(("LossChannel", [m(ka)], [m(kb)], src, False, False, sel, "LossChannel:%s:%s" % (tag, src)))
+                    out.append(("ThermalLossChannel", [m(ka), 0.4], [m(kb), 0.4], src, False, False, sel, "ThermalLossChannel:%s:%s" % (tag, src)))
+                out.append(("LossChannel", [m(1)], [0.5], src, False, False, sel, "LossChannel:T=m,num:" + src))
+                for xa, xb, tag in ((m(), m(), "nbar=m,m"), (m(), m(1), "nbar=m,2m")):
+                    out.append(("ThermalLossChannel", [0.5, xa], [0.75, xb], src, False, False, sel, "ThermalLossChannel:%s:%s" % (tag, src)))
     return out
 
 
 def x_measured_spec(item):
-    name, extra, k2, src, da, db, sel, _ = item
-    # modes 0,1,2 entangled; mode 1 is measured; the fed-forward gates act on mode 1 (own) or 0 (other); a squeezer re-populates mode 1 first
+    name, args_a, args_b, src, da, db, sel, _ = item
+    # modes 0,1,2 entangled; mode 1 is measured; the fed-forward operations act on mode 1 (own) or 0 (other); mode 1 is re-populated first
     t = 1 if src == "own" else 0
     cmds = x_prefix([0, 1, 2], False)
     cmds.append(["MeasureHomodyne", [0.2], [1], False, dict(sel)])
-    m = {"meas": 1}
     cmds.append(["Squeezed", [0.3, 0.2], [1], False, {}])
+    cmds.append(["Dgate", [0.3, 0.1], [1], False, {}])
     cmds.append(["BSgate", [0.5, 0.1], [1, 2], False, {}])
-    cmds.append([name, [dict(m, k=0.5)] + extra, [t], da, {}])
-    cmds.append([name, [dict(m, k=0.5 * k2)] + extra, [t], db, {}])
+    cmds.append([name, list(args_a), [t], da, {}])
+    cmds.append([name, list(args_b), [t], db, {}])
     cmds.append(["BSgate", [0.7, 0.4], [t, 2], False, {}])
     return {"n": 3, "cmds": cmds}
 
@@ -989,7 +1017,7 @@ def x_measured_spec(item):
 def x_random(rng, backend):
     """Random program with New / Del, repeated families (merge bait), symbolic and measured parameters, up to 6 modes."""
     weak = backend == "fock"
-    n = rng.randint(1, 3) if backend != "gaussian" else rng.choice([1, 2, 3, 3, 4, 5, 6])
+    n = rng.choice([1, 2, 2, 2, 3] if backend == "fock" else [1, 2, 3]) if backend != "gaussian" else rng.choice([1, 2, 3, 3, 4, 5, 6])
     maxm = 3 if weak else (4 if backend == "bosonic" else 7)
     cmds = x_prefix(list(range(n)), weak)
     alive, nxt, measured, free = list(range(n)), n, [], {}
@@ -1023,7 +1051,7 @@ def x_random(rng, backend):
             alive.remove(m)
             if m in measured:
                 measured.remove(m)
-            hist = [h for h in hist if m not in h[2]]
+            hist = [h for h in hist if m not in h[2] and not any(isinstance(a, dict) and a.get("meas") == m for a in h[1])]
             cmds.append(["Del", [], [m], False, {}])
             continue
         if r < 0.55 and hist:
@@ -1230,7 +1258,7 @@ X_ROUTES = {"gaussian": ["opt", "opt", "opt", "opt2", "ran", "engine", "compiled
             "bosonic": ["opt", "opt", "opt2", "engine", "compile:bosonic"]}
 
 
-def x_judge(ctx, spec, bucket):
+def x_judge(ctx, spec, bucket, tag=None):
     data = {"check": "xspec", "spec": spec}
     try:
         sig, text, merged = x_check(spec)
@@ -1242,7 +1270,7 @@ def x_judge(ctx, spec, bucket):
         return
     ctx.case({"route": spec["route"], "backend": spec["backend"], "n": spec["n"], "cmds": [[c[0], c[2], c[3]] for c in spec["cmds"]]}, nontrivial=bool(merged), bucket=bucket)
     if sig is not None:
-        ctx.counterexample(sig + ":" + bucket.split("/")[-1], text, data)
+        ctx.counterexample(sig + ":" + (tag or bucket.split("/")[-1]), text, data)
 
 
 def search_extended(ctx):
@@ -1255,17 +1283,24 @@ def search_extended(ctx):
     # 1. same-family pairs: family x relation x dagger flags, in a context
     for backend, keep in (("gaussian", 1.0), ("fock", ctx.budget(0.12, 1.0)), ("bosonic", ctx.budget(0.08, 0.5))):
         for two, tag, pair in x_pair_sweep(backend) + x_channel_sweep(backend):
-            for ctxname in ([rng.choice(CTXS)] if quick else CTXS):
+            for ctxname in ([pick_ctx(rng, backend)] if quick else CTXS):
                 if rng.random() > keep:
                     continue
                 x_judge(ctx, finish(x_wrap(pair, two, ctxname, backend), backend), "x-pair/%s/%s" % (backend, tag.split(":")[0]))
     # 2. cross-family ordered pairs of single-mode commands (only preparations absorb, nothing else may merge)
-    for backend, cnt in (("gaussian", ctx.budget(90, 900)), ("fock", ctx.budget(25, 400)), ("bosonic", ctx.budget(12, 200))):
+    # (every ordered pair of gates / channels / matrix operations on the Gaussian backend; a sample of the pairs involving preparations and measurements)
+    tunits = [u for u in x_units("gaussian") if not hasattr(getattr(ops, u[0]), "select") and not issubclass(getattr(ops, u[0]), (ops.Preparation, ops.Measurement))]
+    for a in tunits:
+        for b in tunits:
+            if a[0] != b[0]:
+                for ctxname in ([rng.choice(CTXS)] if quick else CTXS[:3]):
+                    x_judge(ctx, finish(x_wrap([a, b], False, ctxname, "gaussian"), "gaussian", rng.choice(["opt", "opt", "compile:gaussian"])), "x-cross/gaussian-transformations", a[0] + "+" + b[0])
+    for backend, cnt in (("gaussian", ctx.budget(70, 900)), ("fock", ctx.budget(25, 400)), ("bosonic", ctx.budget(12, 200))):
         units = x_units(backend)
         for _ in range(cnt):
             a, b = rng.choice(units), rng.choice(units)
             pair = [a, b] + ([rng.choice(units)] if rng.random() < 0.3 else [])
-            x_judge(ctx, finish(x_wrap(pair, False, rng.choice(CTXS), backend), backend), "x-cross/%s/%s+%s" % (backend, a[0], b[0]))
+            x_judge(ctx, finish(x_wrap(pair, False, pick_ctx(rng, backend), backend), backend), "x-cross/" + backend, "+".join(u[0] for u in pair))
     # 3. symbolic parameters
     sym = x_symbolic_sweep()
     for two, tag, pair in (rng.sample(sym, ctx.budget(70, len(sym))) if quick else sym):
@@ -1273,10 +1308,13 @@ def search_extended(ctx):
         spec["free"] = {"x": rng.choice([0.3, 0.55, 0.2]), "y": rng.choice([0.7, 0.45])}
         x_judge(ctx, spec, "x-free/" + tag.split(":")[0])
     ms = x_measured_sweep()
-    for item in (rng.sample(ms, ctx.budget(50, len(ms))) if quick else ms):
+    if quick:
+        # every channel item (few) and a sample of the gate items
+        ms = [it for it in ms if "Channel" in it[0]] + rng.sample([it for it in ms if "Channel" not in it[0]], 56)
+    for item in ms:
         x_judge(ctx, finish(x_measured_spec(item), "gaussian"), "x-measured/" + item[-1].split(":")[0])
     # 4. random programs
-    for backend, cnt in (("gaussian", ctx.budget(80, 900)), ("fock", ctx.budget(20, 300)), ("bosonic", ctx.budget(10, 120))):
+    for backend, cnt in (("gaussian", ctx.budget(80, 900)), ("fock", ctx.budget(16, 300)), ("bosonic", ctx.budget(10, 120))):
         for _ in range(cnt):
             x_judge(ctx, finish(x_random(rng, backend), backend), "x-random/" + backend)
     for _ in range(ctx.budget(12, 150)):
